@@ -225,6 +225,20 @@ Definition check_conv (c : pcase * list Z * option (list Z) * list string) : boo
   | Err _ => false
   end.
 
+(* decks with FILL=n on level-0 cells (no nesting, no lattice): the written
+   non-virtual volumes that stem from a FILL carry the comment (universe cell,
+   container); as a multiset these pairs are the model's conv_generated *)
+Definition zz_eqb (a b : Z * Z) : bool := Z.eqb (fst a) (fst b) && Z.eqb (snd a) (snd b).
+Definition sub_list (a b : list (Z * Z)) : bool := forallb (fun x => existsb (zz_eqb x) b) a.
+
+Definition check_fill (c : pcase * list (Z * Z)) : bool :=
+  match run_case (fst c) with
+  | Ok (cells, _) =>
+      let m := conv_generated FS cells in
+      Nat.eqb (List.length m) (List.length (snd c)) && sub_list m (snd c) && sub_list (snd c) m
+  | Err _ => false
+  end.
+
 (* the option normalisation alone *)
 Definition check_tokens (c : string * list string) : bool :=
   list_eqb String.eqb (option_tokens (fst c)) (snd c).
